@@ -59,6 +59,12 @@ Units == [
   s |-> UT("re", "T", 1000, 1, 0), ms |-> UT("re", "T", 1, 1, 0),
   dimensionless |-> UT("re", "N", 1, 1, 0), percent |-> UT("re", "N", 1, 100, 0),
   K |-> UT("re", "Th", 100, 1, 0), degC |-> UT("re", "Th", 100, 1, 27315)]
+\* registry "rx": DERIVED real units - one physical unit reached by different derivations (mL / cm**3, erg / dyne*cm / g*cm**2/s**2,
+\* ft / 12*inch, g/cm**3 / 1000*kg/m**3, hr / 60*min ...).  In the library the base value of a derived unit is a product of floats, so
+\* two derivations of one unit may differ in the last bit; here the worth is exact (relative to a per-dimension base: volume in mL,
+\* energy in erg, length in 1e-4 m, density in kg/m**3, time in ms, force in dyne, pressure in dyne/cm**2).  The name is the text
+\* unyt parses.  "Equal units" is equal dimension and worth - never the spelling, the derivation or the float it produced.
+DerivedNames == {"mL", "cm**3", "L", "1000*cm**3", "dm**3", "1000*mL", "erg", "dyne*cm", "g*cm**2/s**2", "J", "N*m", "kg*m**2/s**2", "W*s", "ft", "12*inch", "yd", "3*ft", "36*inch", "g/cm**3", "1000*kg/m**3", "kg/L", "g/mL", "kg/m**3", "g/L", "hr", "60*min", "3600*s", "min", "60*s", "dyne", "g*cm/s**2", "N", "kg*m/s**2", "J/m", "Pa", "N/m**2", "J/m**3", "dyne/cm**2", "erg/cm**3", "bar", "100000*Pa"}
 \* the same table as an operator (one row evaluated per use; TLC rebuilds a record constant on every use in a trace specification)
 UnitRow(u) ==
   CASE u = "la" -> UT("dy", "L", 1, 1, 0)
@@ -83,7 +89,48 @@ UnitRow(u) ==
     [] u = "percent" -> UT("re", "N", 1, 100, 0)
     [] u = "K" -> UT("re", "Th", 100, 1, 0)
     [] u = "degC" -> UT("re", "Th", 100, 1, 27315)
-UnitNames == DOMAIN Units
+    [] u = "mL" -> UT("rx", "Vol", 1, 1, 0)
+    [] u = "cm**3" -> UT("rx", "Vol", 1, 1, 0)
+    [] u = "L" -> UT("rx", "Vol", 1000, 1, 0)
+    [] u = "1000*cm**3" -> UT("rx", "Vol", 1000, 1, 0)
+    [] u = "dm**3" -> UT("rx", "Vol", 1000, 1, 0)
+    [] u = "1000*mL" -> UT("rx", "Vol", 1000, 1, 0)
+    [] u = "erg" -> UT("rx", "En", 1, 1, 0)
+    [] u = "dyne*cm" -> UT("rx", "En", 1, 1, 0)
+    [] u = "g*cm**2/s**2" -> UT("rx", "En", 1, 1, 0)
+    [] u = "J" -> UT("rx", "En", 10000000, 1, 0)
+    [] u = "N*m" -> UT("rx", "En", 10000000, 1, 0)
+    [] u = "kg*m**2/s**2" -> UT("rx", "En", 10000000, 1, 0)
+    [] u = "W*s" -> UT("rx", "En", 10000000, 1, 0)
+    [] u = "ft" -> UT("rx", "L", 3048, 1, 0)
+    [] u = "12*inch" -> UT("rx", "L", 3048, 1, 0)
+    [] u = "yd" -> UT("rx", "L", 9144, 1, 0)
+    [] u = "3*ft" -> UT("rx", "L", 9144, 1, 0)
+    [] u = "36*inch" -> UT("rx", "L", 9144, 1, 0)
+    [] u = "g/cm**3" -> UT("rx", "Rho", 1000, 1, 0)
+    [] u = "1000*kg/m**3" -> UT("rx", "Rho", 1000, 1, 0)
+    [] u = "kg/L" -> UT("rx", "Rho", 1000, 1, 0)
+    [] u = "g/mL" -> UT("rx", "Rho", 1000, 1, 0)
+    [] u = "kg/m**3" -> UT("rx", "Rho", 1, 1, 0)
+    [] u = "g/L" -> UT("rx", "Rho", 1, 1, 0)
+    [] u = "hr" -> UT("rx", "T", 3600000, 1, 0)
+    [] u = "60*min" -> UT("rx", "T", 3600000, 1, 0)
+    [] u = "3600*s" -> UT("rx", "T", 3600000, 1, 0)
+    [] u = "min" -> UT("rx", "T", 60000, 1, 0)
+    [] u = "60*s" -> UT("rx", "T", 60000, 1, 0)
+    [] u = "dyne" -> UT("rx", "Fo", 1, 1, 0)
+    [] u = "g*cm/s**2" -> UT("rx", "Fo", 1, 1, 0)
+    [] u = "N" -> UT("rx", "Fo", 100000, 1, 0)
+    [] u = "kg*m/s**2" -> UT("rx", "Fo", 100000, 1, 0)
+    [] u = "J/m" -> UT("rx", "Fo", 100000, 1, 0)
+    [] u = "Pa" -> UT("rx", "Pr", 10, 1, 0)
+    [] u = "N/m**2" -> UT("rx", "Pr", 10, 1, 0)
+    [] u = "J/m**3" -> UT("rx", "Pr", 10, 1, 0)
+    [] u = "dyne/cm**2" -> UT("rx", "Pr", 1, 1, 0)
+    [] u = "erg/cm**3" -> UT("rx", "Pr", 1, 1, 0)
+    [] u = "bar" -> UT("rx", "Pr", 1000000, 1, 0)
+    [] u = "100000*Pa" -> UT("rx", "Pr", 1000000, 1, 0)
+UnitNames == DOMAIN Units \cup DerivedNames
 UnitsOf(reg) == {u \in UnitNames : UnitRow(u).reg = reg}
 Dimless(reg) == IF reg = "dy" THEN "na" ELSE "dimensionless"
 UDim(u) == UnitRow(u).dim
